@@ -513,18 +513,20 @@ func hasPoints(writes []uplib.WriteRec, idx int) bool {
 // ---- interval clause on the virtual clock
 
 type ivScenario struct {
-	Policy     string `json:"policy"`
-	IntervalMs int    `json:"interval_ms"`
-	Threshold  uint32 `json:"threshold,omitempty"`
-	Writes     int    `json:"writes"`
-	GapsMs     []int  `json:"gaps_ms"`
-	Outages    int    `json:"outages_before_the_writes,omitempty"`
+	Policy       string `json:"policy"`
+	IntervalMs   int    `json:"interval_ms"`
+	Threshold    uint32 `json:"threshold,omitempty"`
+	Writes       int    `json:"writes"`
+	GapsMs       []int  `json:"gaps_ms"`
+	Outages      int    `json:"outages_before_the_writes,omitempty"`
+	ZeroPayloads bool   `json:"zero_length_payloads,omitempty"`
+	AllZero      bool   `json:"all_payloads_empty,omitempty"`
 }
 
 func TestC20Interval(t *testing.T) {
 	e := vrun.LoadEnv()
 	meta := vrun.Meta{Property: "C20", Workload: "TestC20Interval", Total: e.Pick(200, 20000),
-		Rule:        "virtual time (testing/synctest bubble): policy interval or interval-or-size with interval 1ms..5s, in a third of the cases 1-2 outages (link severed, stream resumed) first, then 3-30 writes separated by gaps drawn around the interval (0, interval/3, interval-1ms, interval, interval+1ms, 3*interval); oracle: every accepted point is handed to the transport no later than one interval + 1 ms (virtual) after its write returned, and conservation holds at close; non-trivial = >=2 chunks cut by the ticker; distinct = (policy, interval, gap pattern signature)",
+		Rule:        "virtual time (testing/synctest bubble): policy interval or interval-or-size with interval 1ms..5s, in a third of the cases 1-2 outages (link severed, stream resumed) first, then 3-30 writes (in half of the cases some or all with zero-length payloads) separated by gaps drawn around the interval (0, interval/3, interval-1ms, interval, interval+1ms, 3*interval); oracle: every accepted point is handed to the transport no later than one interval + 1 ms (virtual) after its write returned, and conservation holds at close; non-trivial = >=2 chunks cut by the ticker; distinct = (policy, interval, gap pattern signature)",
 		Assumptions: []string{"'sent' is judged at the transport boundary: the virtual time at which the library's transport Write of the chunk was recorded"}}
 	vrun.Loop(t, meta, 0, func(c *vrun.Case) vrun.Result {
 		s := ivScenario{Policy: []string{"interval", "interval-or-size"}[c.Rng.Intn(2)]}
@@ -539,6 +541,12 @@ func TestC20Interval(t *testing.T) {
 		}
 		if c.Rng.Intn(3) == 0 {
 			s.Outages = 1 + c.Rng.Intn(2)
+		}
+		switch c.Rng.Intn(4) {
+		case 0:
+			s.ZeroPayloads = true
+		case 1:
+			s.ZeroPayloads, s.AllZero = true, true // every payload empty: the buffered payload size stays 0
 		}
 		var res vrun.Result
 		func() {
@@ -605,7 +613,12 @@ func runInterval(s ivScenario) vrun.Result {
 		}
 	}
 	for i := 0; i < s.Writes; i++ {
-		rec.Write(ctx, up, 1, id, []int{i + 1}, []int{100})
+		// a third of the writes carries a zero-length payload (such points are data too)
+		size := 100
+		if s.ZeroPayloads && ((i+s.IntervalMs)%3 == 0 || s.AllZero) {
+			size = 0
+		}
+		rec.Write(ctx, up, 1, id, []int{i + 1}, []int{size})
 		time.Sleep(time.Duration(s.GapsMs[i]) * time.Millisecond)
 	}
 	time.Sleep(iv + 2*time.Millisecond)
@@ -672,7 +685,7 @@ func runInterval(s ivScenario) vrun.Result {
 	for _, g := range s.GapsMs {
 		h = (h ^ uint64(g+1)) * 1099511628211
 	}
-	r := vrun.Hold(fmt.Sprintf("%s/%d/%d/%x/o%d", s.Policy, s.IntervalMs, s.Threshold, h, s.Outages), tickerChunks >= 2)
+	r := vrun.Hold(fmt.Sprintf("%s/%d/%d/%x/o%d/z%v%v", s.Policy, s.IntervalMs, s.Threshold, h, s.Outages, s.ZeroPayloads, s.AllZero), tickerChunks >= 2)
 	if s.Outages > 0 {
 		r.Stat("cases_with_outages_before_the_writes", 1)
 	}
